@@ -94,6 +94,37 @@ fn element() -> BoxedStrategy<String> {
   .boxed()
 }
 
+/// three words that make a limb-wise sampler return a chosen boundary VALUE
+/// (the element's internal limbs, exposed by the public `Vec<u64>: From<Fp>`);
+/// if the sampler works differently these are just three more words
+fn special_draw() -> BoxedStrategy<Vec<u64>> {
+  any::<u16>()
+    .prop_map(|i| {
+      let b = boundary();
+      let v = &b[idx(i, b.len())];
+      match big_to_fe(v) {
+        Some(f) => Vec::<u64>::from(f),
+        None => vec![0, 0, 0],
+      }
+    })
+    .boxed()
+}
+
+fn scripted_prefix(max: usize) -> BoxedStrategy<Vec<u64>> {
+  (vec(word(), 0..max), proptest::option::weighted(0.4, (special_draw(), 0usize..3)))
+    .prop_map(|(mut w, sp)| {
+      if let Some((limbs, at)) = sp {
+        // insert on a draw boundary (draws take three words each)
+        let pos = (3 * at).min(w.len() - w.len() % 3);
+        for (k, l) in limbs.into_iter().enumerate() {
+          w.insert(pos + k, l);
+        }
+      }
+      w
+    })
+    .boxed()
+}
+
 fn strat_with(tmax_small: u32, big: bool) -> BoxedStrategy<Case> {
   let t = if big {
     (65u32..601).boxed()
@@ -102,8 +133,8 @@ fn strat_with(tmax_small: u32, big: bool) -> BoxedStrategy<Case> {
   };
   let kmax = if big { 2 } else { 17 };
   (
-    (t, vec(element(), 0..kmax), vec(word(), 0..10), any::<u64>()),
-    (0u8..2, vec(word(), 0..7), any::<u64>(), any::<u16>()),
+    (t, vec(element(), 0..kmax), scripted_prefix(10), any::<u64>()),
+    (0u8..2, scripted_prefix(7), any::<u64>(), any::<u16>()),
     (sel_spec(), sel_spec()),
   )
     .prop_map(|((t, secret, prefix, tail), (mode, prefix2, tail2, extra), (sel, sub_sel))| Case {
